@@ -575,11 +575,21 @@ def run_scp(svc, handler, msg_id=7, cx_id=3, req_has_inst=True):
     req = make_request(svc, msg_id, req_has_inst)
     crashed = False
     exc = None
+    # logging switches must not change what is sent: they are set from the case (deterministically) for the run
+    from pynetdicom import _config
+
+    saved = (_config.LOG_RESPONSE_IDENTIFIERS, _config.LOG_REQUEST_IDENTIFIERS, _config.LOG_HANDLER_LEVEL)
+    k = (len(repr(handler)) + msg_id + cx_id) % 4
+    _config.LOG_RESPONSE_IDENTIFIERS = k in (0, 1)
+    _config.LOG_REQUEST_IDENTIFIERS = k in (0, 2)
+    _config.LOG_HANDLER_LEVEL = "standard" if k != 3 else "none"
     try:
         service.SCP(req, cx)
     except Exception as e:  # Association._serve_request would log and abort
         crashed = True
         exc = e
+    finally:
+        _config.LOG_RESPONSE_IDENTIFIERS, _config.LOG_REQUEST_IDENTIFIERS, _config.LOG_HANDLER_LEVEL = saved
     return {
         "rsps": [canon_snapshot(s) for s in env.sent],
         "raw": env.sent,
